@@ -259,7 +259,7 @@ Schedule(p, bad) ==
                 /\ running' = Append(running, {})
                 /\ rctx' = Append(rctx, FALSE)
                 /\ runs' = Append(runs, [t \in 1 .. nt |-> [begun |-> 0, outcome |-> "none", execAtBegin |-> FALSE, execAtEnd |-> FALSE, goneAtBegin |-> FALSE, goneAtEnd |-> FALSE]])
-                /\ stop' = Append(stop, [n |-> 0, at |-> 0, duringShut |-> FALSE, begunBefore |-> [t \in 1 .. nt |-> FALSE], openBefore |-> [t \in 1 .. nt |-> FALSE]])
+                /\ stop' = Append(stop, [n |-> 0, at |-> 0, duringShut |-> FALSE, byShutdown |-> FALSE, begunBefore |-> [t \in 1 .. nt |-> FALSE], openBefore |-> [t \in 1 .. nt |-> FALSE]])
                 /\ ack' = Append(ack, [n |-> 0, req |-> 0, at |-> 0, wasStarted |-> FALSE, wasFinished |-> FALSE,
                                        okAtAck |-> [t \in 1 .. nt |-> FALSE], openAtAck |-> [t \in 1 .. nt |-> FALSE],
                                        failedAtAck |-> FALSE, stopBefore |-> FALSE])
@@ -346,7 +346,7 @@ CancelDeliver(j) ==
               sched' = [sched EXCEPT ![j].cancelled = TRUE, ![j].lastErr = le]
         /\ runs' = [runs EXCEPT ![j] = [t \in DOMAIN @ |-> IF t \in R THEN [@[t] EXCEPT !.outcome = "canceled", !.execAtEnd = job[j].present /\ IsRunning(job, j), !.goneAtEnd = ~job[j].present] ELSE @[t]]]
         /\ stop' = [stop EXCEPT ![j] = IF @.n > 0 THEN [@ EXCEPT !.n = 2]
-                                        ELSE [n |-> 1, at |-> 0, duringShut |-> shut # "no", begunBefore |-> [t \in Tasks(j) |-> runs[j][t].begun > 0],
+                                        ELSE [n |-> 1, at |-> 0, duringShut |-> shut # "no", byShutdown |-> shut # "no", begunBefore |-> [t \in Tasks(j) |-> runs[j][t].begun > 0],
                                               openBefore |-> [t \in Tasks(j) |-> t \in R]]]
         /\ IF R # {} /\ job[j].present THEN ReqPersist ELSE UNCHANGED persist
   /\ ev' = [k |-> "RunnerCancel", j |-> j, t |-> 0, o |-> ""]
